@@ -197,30 +197,46 @@ def case_term(pattern, code, autos):
 
 
 def run_case_file(name, cases, shard=60, timeout=900):
-    """cases: list of (pattern, impl_code, [dfa dumps]).  Returns (bad indices, error text or '')."""
-    paths, offs = [], []
-    for s in range(0, len(cases), shard):
-        body = ";\n".join(case_term(*c) for c in cases[s:s + shard])
-        path = os.path.join(C.GEN, "%s_%d.v" % (name, s // shard))
-        with open(path, "w") as f:
-            f.write(CASES_V % {"prop": name, "body": body})
-        paths.append(path)
-        offs.append(s)
+    """cases: list of (pattern, impl_code, [dfa dumps]).  Returns (bad indices, error text or '').
+    A shard that exceeds the time limit is split; a single case that still exceeds it is recorded in LAST["slow"]
+    (undecided: the kernel did not finish evaluating the certified checker), not as a failure."""
+    LAST["known"], LAST["slow"] = [], []
     bad = []
-    LAST["known"] = []
-    for (ok, out), s in zip(C.coqc_many(paths, timeout), offs):
-        if not ok:
-            return None, out
-        m = C.parse_mismatches(out)
-        k = C.parse_mismatches(out, "K")
-        if m is None or k is None:
-            return None, out
-        bad.extend(s + x for x in m)
-        LAST["known"].extend(s + x for x in k)
+    work = [(s, cases[s:s + shard]) for s in range(0, len(cases), shard)]
+    gen = 0
+    while work:
+        paths = []
+        for k, (off, cs) in enumerate(work):
+            body = ";\n".join(case_term(*c) for c in cs)
+            path = os.path.join(C.GEN, "%s_%d_%d.v" % (name, gen, k))
+            with open(path, "w") as f:
+                f.write(CASES_V % {"prop": name, "body": body})
+            paths.append(path)
+        nxt = []
+        for (ok, out), (off, cs) in zip(C.coqc_many(paths, timeout), work):
+            if not ok and not out.strip():          # killed by the time limit
+                if len(cs) == 1:
+                    LAST["slow"].append(off)
+                else:
+                    h = (len(cs) + 1) // 2
+                    nxt.append((off, cs[:h]))
+                    nxt.append((off + h, cs[h:]))
+                continue
+            if not ok:
+                return None, out
+            m = C.parse_mismatches(out)
+            k_ = C.parse_mismatches(out, "K")
+            if m is None or k_ is None:
+                return None, out
+            bad.extend(off + x for x in m)
+            LAST["known"].extend(off + x for x in k_)
+        work = nxt
+        gen += 1
+        timeout = max(120, timeout // 2)
     return bad, ""
 
 
-LAST = {"known": []}
+LAST = {"known": [], "slow": []}
 
 
 # ------------------------------------------------------------------ search side (python mirror; never a verdict)
